@@ -1,4 +1,134 @@
-import I2N.Model.Index
+import I2N.Lemmas.Index
+import I2N.Lemmas.Register
+/-!
+# C16 — Name lookups and visit counters are exact
+
+Property theorems only (helper lemmas live in `I2N/Lemmas/Index.lean`, `Register.lean`).
+The model (`I2N/Model/Index.lean`) is the one the compiled driver `drv_index` runs.
+
+Quantifiers: every list `ns` of (name, test id) pairs that is parser shaped (`WF`: names pairwise
+distinct, non-empty, no variant repeated inside a name, the first — set — variant of a name at no
+later position of any name), in **any insertion order**, every query; every register history;
+every number of equivalent nodes arriving in any order.
+-/
 namespace I2N.Props.C16
-theorem placeholder : True := trivial
+open I2N.Index
+
+/-- Lookup by a dotted partial name returns exactly the ids of the tests whose full name contains
+the query's variants contiguously. -/
+theorem get_exact (ns : List (List String × Nat)) (hwf : WF ns) (q0 : String) (qs : List String) (id : Nat) :
+    id ∈ get (insertAll ns) (q0 :: qs) ↔ ∃ name, (name, id) ∈ ns ∧ (q0 :: qs) <:+: name :=
+  mem_get_iff (inv_insertAll ns hwf) q0 qs id
+
+/-- … each once: with pairwise distinct test ids the result has no duplicates. -/
+theorem get_each_once (ns : List (List String × Nat)) (hwf : WF ns) (hids : (ns.map (·.2)).Nodup)
+    (q : List String) : (get (insertAll ns) q).Nodup :=
+  get_nodup (inv_insertAll ns hwf) hwf hids q
+
+/-- … regardless of insertion order: any two insertion orders of the same name set give the same
+lookups (as sets; with `get_each_once` as multisets). -/
+theorem get_order_independent (ns ns' : List (List String × Nat)) (hwf : WF ns) (hwf' : WF ns')
+    (hperm : ∀ n, n ∈ ns ↔ n ∈ ns') (q0 : String) (qs : List String) (id : Nat) :
+    id ∈ get (insertAll ns) (q0 :: qs) ↔ id ∈ get (insertAll ns') (q0 :: qs) := by
+  rw [get_exact ns hwf, get_exact ns' hwf']
+  constructor
+  · rintro ⟨name, h, hi⟩; exact ⟨name, (hperm _).1 h, hi⟩
+  · rintro ⟨name, h, hi⟩; exact ⟨name, (hperm _).2 h, hi⟩
+
+/-- Membership queries agree with lookups. -/
+theorem contains_iff_get (ns : List (List String × Nat)) (hwf : WF ns) (q0 : String) (qs : List String) :
+    contains (insertAll ns) (q0 :: qs) = true ↔ get (insertAll ns) (q0 :: qs) ≠ [] := by
+  have hinv := inv_insertAll ns hwf
+  rw [contains_iff]
+  constructor
+  · rintro ⟨p, hp, p', hf⟩
+    -- every path of the trie extends to an inserted name, so something lies below p'
+    obtain ⟨rfl, _⟩ := follow_some _ _ _ _ hf
+    have hp1 := ((mem_labelled _ _ _).1 hp).1
+    have hin : p ++ qs ∈ paths (insertAll ns) := by
+      by_cases hqs : qs = []
+      · subst hqs; simpa using hp1
+      · exact (follow_some _ _ _ _ hf).2 hqs
+    obtain ⟨_, n, hn, hpre⟩ := (hinv.paths_iff _).1 hin
+    have : n.2 ∈ get (insertAll ns) (q0 :: qs) := by
+      rw [mem_get]
+      exact ⟨p, hp, p ++ qs, hf, (mem_below _ _ _).2 ⟨n.1, hpre, (hinv.fin_iff _ _).2 hn⟩⟩
+    intro h; rw [h] at this; simp at this
+  · intro h
+    obtain ⟨id, hid⟩ := List.exists_mem_of_ne_nil _ h
+    obtain ⟨p, hp, p', hf, _⟩ := (mem_get _ _ _ _).1 hid
+    exact ⟨p, hp, p', hf⟩
+
+/-- Visit counters report exactly the visits registered, per test and worker, per test, per worker,
+or in total (`none` = argument omitted). -/
+theorem counters_exact (ops : List (String × String)) (node worker : Option String) :
+    getCounters (registerAll ops) node worker = (ops.filter (keyMatches node worker)).length := by
+  have := getCounters_foldl [] ops node worker
+  simpa [registerAll, getCounters, sumCounts] using this
+
+/-- The workers reported for a test (or for all) are exactly those that registered a visit, each once. -/
+theorem workers_exact (ops : List (String × String)) (node : Option String) (w : String) :
+    w ∈ getWorkers (registerAll ops) node ↔ ∃ op ∈ ops, keyMatches node none op = true ∧ op.2 = w := by
+  rw [mem_getWorkers]
+  constructor
+  · rintro ⟨k, hk, hm, hw⟩
+    have := (mem_keys_foldl [] ops k).1 (by simpa [registerAll] using hk)
+    simp at this
+    exact ⟨k, this, hm, hw⟩
+  · rintro ⟨k, hk, hm, hw⟩
+    refine ⟨k, ?_, hm, hw⟩
+    have := (mem_keys_foldl [] ops k).2 (Or.inr hk)
+    simpa [registerAll] using this
+
+theorem workers_each_once (ops : List (String × String)) (node : Option String) :
+    (getWorkers (registerAll ops) node).Nodup := nodup_dedup _
+
+/-- Equivalent tests of different workers share their visit bookkeeping: when the nodes of one
+equivalence class are parsed one after the other (any number, any order) and each new node bridges
+with all earlier ones (the discipline of `parse_branches_for_node_and_object` and of cloning), then
+afterwards any two of them reference the same register objects and are linked symmetrically. -/
+theorem shared_after_bridging (ms : List Nat) (hnd : ms.Nodup) (x y : Nat) (hx : x ∈ ms) (hy : y ∈ ms) :
+    let st := ms.foldl arrive ({ regOf := [], bridged := [] }, [])
+    st.1.reg x = st.1.reg y ∧ st.1.isBridged x y = st.1.isBridged y x ∧ (x ≠ y → st.1.isBridged x y = true) := by
+  intro st
+  have h := classInv_foldl ms _ classInv_init hnd (by simp)
+  have hseen : ∀ z, z ∈ ms → z ∈ st.2 := by
+    intro z hz
+    have : ∀ (l : List Nat) (s : Bridging × List Nat), (l.foldl arrive s).2 = s.2 ++ l := by
+      intro l
+      induction l with
+      | nil => simp
+      | cons a r ih => intro s; simp [List.foldl_cons, ih, arrive]
+    show z ∈ (ms.foldl arrive _).2
+    rw [this]; simpa using hz
+  exact ⟨h.shared x (hseen x hx) y (hseen y hy), h.sym x y, h.linked x (hseen x hx) y (hseen y hy)⟩
+
+/-- A visit registered through one member of a bridged class is read through every member: the two
+nodes address the same register object, hence the same counters. -/
+theorem visit_seen_by_all (regs : Nat → Register) (b : Bridging) (x y : Nat) (h : b.reg x = b.reg y)
+    (node worker : Option String) :
+    getCounters (regs (b.reg x)) node worker = getCounters (regs (b.reg y)) node worker := by rw [h]
+
+/-! ## Non-vacuity and boundary witnesses -/
+
+/-- the five literal names of the selftests (`test_prefix_tree_*`) satisfy `WF` -/
+def selftestNames : List (List String × Nat) :=
+  [(["aaa", "bbb", "ccc"], 0), (["aaa", "bbb", "fff"], 1), (["aaa", "eee", "ccc"], 2),
+   (["ddd", "bbb", "ccc"], 3), (["ddd", "bbb", "ccc", "ggg"], 4)]
+
+example : WF selftestNames := wfCheck_sound _ (by decide)
+example : get (insertAll selftestNames) ["bbb", "ccc"] = [0, 3, 4] := by decide
+example : contains (insertAll selftestNames) ["bbb", "ccc"] = true := by decide
+example : contains (insertAll selftestNames) ["bbb", "ggg"] = false := by decide
+
+/-- outside `WF` (the first variant `b` of the second name re-occurs inside the first name) the
+structure is not a general suffix trie: `b.c` is filed under `a.b`, and `get "a.b.c"` returns it
+although no inserted name contains `a.b.c`.  The same happens in the real class (DESIGN.md C16). -/
+example : get (insertAll [(["a", "b"], 0), (["b", "c"], 1)]) ["a", "b", "c"] = [1] := by decide
+
+example : getCounters (registerAll [("n", "net1"), ("n", "net2"), ("n", "net1"), ("m", "net1")]) (some "n") (some "net1") = 2 := by
+  decide
+example : (([0, 1, 2].foldl arrive ({ regOf := [], bridged := [] }, [])).1.reg 0
+    = ([0, 1, 2].foldl arrive ({ regOf := [], bridged := [] }, [])).1.reg 2) := by decide
+
 end I2N.Props.C16
